@@ -66,9 +66,12 @@ CLAIMED["C13"] = dict(
          "snapshot of the producers-finished flag (never the live flag), every pass through the decision block kills or "
          "uses a retry (bounded attempts), task generation only when able to consume and with new output, notification "
          "wiring on every stageIn path, poll fires when producers are finished, the monitor runs one last action after "
-         "cancel, exit reason only after cancel. The timing quantifier (where the notification lands between polls, NFS "
+         "cancel, exit reason only after cancel, and an expired kill delay is serviced by the next pass (every feasible "
+         "path that sees _suicide with lastAction False reaches kill(); feasibility = consistency of repeated tests of "
+         "lastAction/_suicide and their copies). The timing quantifier (where the notification lands between polls, NFS "
          "latency) cannot be bounded statically and is not claimed.",
-    technique="CFG edge-dominance and must-pass-through, reaching definitions of the snapshot, who-may-write",
+    technique="CFG edge-dominance and must-pass-through, path-consistent product reachability over stable flags, "
+              "reaching definitions of the snapshot, who-may-write",
     design="3/C13")
 
 CLAIMED["C03"] = dict(
@@ -91,14 +94,16 @@ CLAIMED["C05"] = dict(
 CLAIMED["C10"] = dict(
     text="Decides the structural necessary condition of exact substitution in resolveArguments: every content-based "
          "substitution of a reference spelling is escaped and anchored on both sides (then declaration order cannot "
-         "matter), the replacement is the value resolved from the same reference, and the argument string is rewritten "
-         "nowhere else. The four str.replace sites that violated it were a genuine, reproduced defect and were repaired.",
-    technique="substitution-site lint with pattern-shape analysis (SUB), local def-use of replacement values",
+         "matter), the replacement is the value resolved from the same reference, the argument string is rewritten "
+         "nowhere else, and the stage-less relative spelling is substituted only on the side where the reference's "
+         "absolute spelling was not found. The four str.replace sites that violated it were a genuine, reproduced defect and were repaired.",
+    technique="substitution-site lint with pattern-shape analysis (SUB), local def-use of replacement values, CFG edge-dominance",
     design="3/C10")
 CLAIMED["C19"] = dict(
     text="Literal-table agreement between the DOSINI writers and parse_component for every option at once: written key "
          "is known, tested by a reader branch, stored into the same FlowIR path, with a converter of the matching kind; "
-         "translate maps inverse; status/output section keys agree; known keys without reader branch are reported. "
+         "translate maps inverse; status/output section keys agree; known keys without reader branch are reported; writer converters are total over non-None values (a key is omitted "
+         "only under a None-identity test). "
          "Value equality after a full round trip is not decided.",
     technique="writer/reader table extraction from dict/lambda literals and an if/elif chain, set comparison",
     design="3/C19")
@@ -118,7 +123,8 @@ CLAIMED["C15"] = dict(
          "set-returning functions, directory listings) must not reach an order-dependent sink (materialise, join, pop, "
          "loop with append/break/counter) without sorted(); benign hits are frozen with reasons. Plus variable files "
          "keep the caller's order and fold last-wins, the hash routine iterates only through sorted(), names are "
-         "numbered over ordered containers. Holds for every hash seed / directory order; equality of full dumps across "
+         "numbered over ordered containers; single-pass substitutions (Template wrappers) never use a context mapping that "
+         "is stored into in the same loop over it. Holds for every hash seed / directory order; equality of full dumps across "
          "processes is not run, networkx-internal ordering is an assumption.",
     technique="intra-procedural order-taint (set-typedness inference + sink classification) with a frozen exemption table",
     design="3/C15")
@@ -163,7 +169,8 @@ CLAIMED["C16"] = dict(
          "instance path, component/stage name, clock or randomness; required ingredients (unreplicated executable, "
          "arguments, file hash+method, producer hashes, image) are present; strong mode returns None when an input is "
          "missing or anything fails (CFG specialised on fuzzy=False); fuzzy rule as an 8-row truth table; anchored "
-         "longest-first substitution; sorted hash traversal; cache/reset discipline. The 'exactly when' equivalence "
+         "longest-first substitution; sorted hash traversal; cache/reset discipline; the computation keeps no state on the component or "
+         "module between calls. The 'exactly when' equivalence "
          "over all pairs of definitions is not decided.",
     technique="backward data slice for non-interference, CFG specialisation, finite truth table, SUB, table checks",
     design="3/C16")
@@ -172,7 +179,8 @@ CLAIMED["C17"] = dict(
     text="Who-may-read rule for the launch environment in the environment builders: every os.environ occurrence is "
          "classified into four frozen key-restricted forms (DEFAULTS imports by name, literal search-path list for "
          "interpreter components only when missing, whole environment only as stand-in for a missing default "
-         "environment, expandvars after the environment's own variables); helpers on the path do not read it. Plus the "
+         "environment, expandvars after the environment's own variables); helpers on the path do not read it; every expand_vars call "
+         "takes the environment itself or the launch value of the same variable as context. Plus the "
          "branch table of environmentWithName ('none' adds nothing, default vs named, unknown names propagate), "
          "platform-over-default layering and lower-casing agreement of readers/writers. Holds for every launch "
          "environment; the resulting dictionary for a concrete combination is not computed.",
@@ -198,7 +206,8 @@ CLAIMED["C11"] = dict(
          "are only the invalid/missing-configuration errors; helpers are total-catch; _try_report_errors raises whenever "
          "validation is on and an error was recorded; __init__ always ends there. Plus a fault->detector table (unknown "
          "key, wrong type, dangling reference, duplicates, cycle, undefined variable: detector exists and is reachable "
-         "from the loader), defaults are admitted by the closed schema, and every component is resolved inside a "
+         "from the loader; the graph sorted topologically in propagate_replicate receives an edge for every component "
+         "reference), defaults are admitted by the closed schema, and every component is resolved inside a "
          "recording catch-all. Implicit exceptions outside try blocks and front-end work before this loader are outside "
          "the model; acceptance => usability for all documents is not decided.",
     technique="explicit-raise escape analysis over a name-resolved call graph, call-graph reachability of detectors, "
